@@ -131,7 +131,8 @@ PROPS["C01"] = {
             "access, result intervals inside read and adapter, placement rule of the flag set, minimum overlap, N-discounted "
             "tolerance, and existence of an alignment of the reported cost, for all adapters, reads, error rates and flag sets.",
     "note": "Trusted: double arithmetic as the uninterpreted monotone function budget(L); translate() byte tables (checked "
-            "exhaustively); constructor establishes the entry invariant.",
+            "exhaustively); the thin match_to wrappers of the adapter classes (argument passing to locate, RightmostFrontAdapter's "
+            "coordinate mirroring) are not under contract — they are exercised by the cross-check only.",
     "assumptions": ["indel cost is 1 or 100000 (the two values the constructor can set)", "rate in [0, 1]"],
 }
 
